@@ -2,7 +2,8 @@
 From Coq Require Import ZArith List Bool String Ascii.
 From Coq Require Extraction.
 From Coq Require Import ExtrOcamlBasic ExtrOcamlString.
-From HV Require Import Model.SexpDefs Gen.GenRefine Spec.SmtQuerySpec Model.SmtTextModel Model.SolveModel.
+From HV Require Import Model.SexpDefs Gen.GenRefine Spec.SmtQuerySpec Model.SmtTextModel Model.SolveModel
+  Model.SolveFsDefs Gen.GenSolveFs Model.SolveFsModel.
 Import ListNotations.
 Open Scope Z_scope.
 
@@ -71,10 +72,109 @@ Definition c04_e2e (a : list Z) : list Z :=
   | _ => []
   end.
 
+(* ---- file-system level (Model/SolveFsModel.v).  Texts are length-prefixed: S(x) = [len; codes] *)
+Definition get_str (l : list Z) : string * list Z :=
+  match l with
+  | n :: r => let (a, b) := take_n (Z.to_nat n) r in (str_of a, b)
+  | [] => (EmptyString, [])
+  end.
+
+Definition put_str (s : string) : list Z := Z.of_nat (String.length s) :: codes_of s.
+
+Fixpoint get_n {A} (get : list Z -> A * list Z) (k : nat) (l : list Z) : list A * list Z :=
+  match k with
+  | O => ([], l)
+  | S k' => let (x, r) := get l in let (xs, r') := get_n get k' r in (x :: xs, r')
+  end.
+
+Definition get_list {A} (get : list Z -> A * list Z) (l : list Z) : list A * list Z :=
+  match l with
+  | n :: r => get_n get (Z.to_nat n) r
+  | [] => ([], [])
+  end.
+
+Definition get_file (l : list Z) : (string * string) * list Z :=
+  let (n, r) := get_str l in let (c, r') := get_str r in ((n, c), r').
+
+(* one scripted answer: S(key) kind S(stdout) S(stderr); kind 1 = does not answer in time *)
+Definition get_ans (l : list Z) : (string * option (string * string)) * list Z :=
+  let (k, r) := get_str l in
+  match r with
+  | kind :: r1 =>
+      let (o, r2) := get_str r1 in
+      let (e, r3) := get_str r2 in
+      ((k, if kind =? 1 then None else Some (o, e)), r3)
+  | [] => ((k, None), [])
+  end.
+
+Fixpoint after (m s : string) : option string :=
+  match strip_prefix m s with
+  | Some r => Some r
+  | None => match s with EmptyString => None | String _ r => after m r end
+  end.
+
+(* the scripted solver of the correspondence run: it answers by the `; key=K` line of the
+   file it is handed (K.r when the file defines an f_evm_ function, i.e. is a refined query) *)
+Definition key_of (content : string) : string :=
+  let k := match after "; key=" content with Some r => first_line r | None => EmptyString end in
+  if contains "(define-fun f_evm_" content then (k ++ ".r")%string else k.
+
+Fixpoint assoc {A} (k : string) (l : list (string * A)) : option A :=
+  match l with
+  | [] => None
+  | (k', v) :: r => if String.eqb k' k then Some v else assoc k r
+  end.
+
+Definition scripted_solver (answers : list (string * option (string * string))) : solver_t :=
+  fun f =>
+    match f with
+    | None => Some (("(error ""no file"")" ++ nl)%string, EmptyString)
+    | Some content =>
+        match assoc (key_of content) answers with
+        | Some a => a
+        | None => Some (("(error ""no answer"")" ++ nl)%string, EmptyString)
+        end
+    end.
+
+Fixpoint dedup (seen : list string) (d : dir) : dir :=
+  match d with
+  | [] => []
+  | (n, c) :: r => if existsb (String.eqb n) seen then dedup seen r else (n, c) :: dedup (n :: seen) r
+  end.
+
+(* [core_hit; refined; cache; path_id] S(smtlib) S(refined smtlib) [n] S(id)* [n] (S(name) S(content))*
+   [n] (S(key) kind S(stdout) S(stderr))*
+   -> [outcome (0 unsat / 1 sat / 2 unknown / 3 err / 9 no return); valid; runs] S(model source)
+      [n] (S(name) S(content))*      (the directory afterwards, newest first) *)
+Definition c04_fs (a : list Z) : list Z :=
+  match a with
+  | ch :: rf :: ca :: pid :: r =>
+      let (smt, r1) := get_str r in
+      let (rsmt, r2) := get_str r1 in
+      let (idl, r3) := get_list get_str r2 in
+      let (files, r4) := get_list get_file r3 in
+      let (answers, _) := get_list get_ans r4 in
+      let c := mkCtx pid (negb (rf =? 0)) (negb (ca =? 0)) smt idl in
+      match solve_e2e_fs (scripted_solver answers) (fun _ => rsmt) (negb (ch =? 0)) c files with
+      | (o, k, d) =>
+          let d' := dedup [] d in
+          let tail := Z.of_nat (List.length d') :: flat_map (fun nc => (put_str (fst nc) ++ put_str (snd nc))%list) d' in
+          match o with
+          | Some OUnsat => ([0; 0; k] ++ put_str EmptyString ++ tail)%list
+          | Some (OSat valid s) => ([1; if valid then 1 else 0; k] ++ put_str s ++ tail)%list
+          | Some OUnknown => ([2; 0; k] ++ put_str EmptyString ++ tail)%list
+          | Some OErr => ([3; 0; k] ++ put_str EmptyString ++ tail)%list
+          | None => ([9; 0; k] ++ put_str EmptyString ++ tail)%list
+          end
+      end
+  | _ => []
+  end.
+
 Definition table : list (string * (list Z -> list Z)) :=
   [ ("c04_parse_const"%string, c04_parse_const);
     ("c04_parse_var"%string, c04_parse_var);
     ("c04_print"%string, c04_print);
-    ("c04_e2e"%string, c04_e2e) ].
+    ("c04_e2e"%string, c04_e2e);
+    ("c04_fs"%string, c04_fs) ].
 
 Extraction "_build/C04/entries.ml" table.
